@@ -1394,3 +1394,17 @@ Proof.
   exists t. split; [reflexivity|]. split; [now apply aip_parse_print|].
   now apply routing_contribution_correct_str.
 Qed.
+
+(* ================================================================ the Ads template tree: the former witnesses *)
+Definition ads_http : http_rule :=
+  {| h_get := ""; h_put := ""; h_post := "/v1/{name=shelves/*}:route"; h_delete := ""; h_patch := ""; h_custom_path := "" |}.
+Definition ads_m : method :=
+  {| m_explicit := Some [{| p_field := "table_name"; p_template := "{routing_id=projects/*}/**" |}];
+     m_http := ads_http; m_client_streaming := false |}.
+Definition ads_req : request := req_of [("table_name", "projects/p1/instances/i"); ("name", "shelves/s1")].
+Lemma ads_witnesses_l :
+  header_of_ads ads_m ads_req = Ok (Some "routing_id=projects/p1") /\
+  header_of_ads {| m_explicit := Some []; m_http := ads_http; m_client_streaming := false |} ads_req = Ok None /\
+  header_of_ads {| m_explicit := None; m_http := ads_http; m_client_streaming := false |} ads_req = Ok (Some "name=shelves/s1") /\
+  emit_ads ads_m = emit_sync ads_m.
+Proof. vm_compute. repeat split; reflexivity. Qed.
